@@ -105,6 +105,19 @@ func init() {
 		setSelf.items = make(map[Object]SetValue)
 		return NoneType{}, nil
 	}, 0, "clear() -- remove all elements from this set")
+
+	SetType.Dict["copy"] = MustNewMethod("copy", func(self Object, args Tuple) (Object, error) {
+		setSelf := self.(*Set)
+		err := UnpackTuple(args, nil, "copy", 0, 0)
+		if err != nil {
+			return nil, err
+		}
+		ret := NewSetWithCapacity(len(setSelf.items))
+		for item := range setSelf.items {
+			ret.items[item] = SetValue{}
+		}
+		return ret, nil
+	}, 0, "copy() -- return a shallow copy of a set")
 }
 
 // Add an item to the set
